@@ -60,7 +60,7 @@ SCORES = ["spt", "fcfs", "mwkr", "mor", "random"]
 
 def gen_cases(ctx):
     rng = ctx.rng
-    for i in range(ctx.scale(5000, 150000)):
+    for i in range(ctx.scale(5000, 900000)):
         inst = gen.gen_instance(rng, None, max_jobs=rng.choice([2, 3, 4, 5, 6, 10]), max_machines=rng.choice([2, 3, 4, 5]))
         r = rng.random()
         if r < 0.55:
@@ -81,7 +81,7 @@ def gen_cases(ctx):
                "chooser": rng.choice(["first", "random", "FIRST", "callable_last"]),
                "filter": filt, "api": rng.choice(["solve", "solve_dispatcher", "call", "solve_partial"]),
                "seed": rng.randrange(2**31)}
-    for i in range(ctx.scale(1500, 40000)):
+    for i in range(ctx.scale(1500, 240000)):
         if i % 3 == 0:
             # many jobs (ids >= 8) and tiny durations: exact ties on remaining work between jobs
             inst = gen.gen_instance(rng, rng.choice(["classic", "irregular", "flexible", "recirc"]),
